@@ -203,7 +203,12 @@ func runC01(r *run) {
 		for k := range loggers {
 			for _, L := range Ls {
 				// set the level through the public API; note the side effect on debug mode
-				if k == 0 && L%2 == 0 {
+				if k == 0 && L%3 == 2 {
+					// the package level was switched off earlier; the default logger is then levelled on its own: the
+					// package-level functions act on the default logger
+					slog.SetLevel(slog.OffLevel)
+					loggers[k].SetLevel(slog.Level(L))
+				} else if k == 0 && L%2 == 0 {
 					slog.SetLevel(slog.Level(L)) // package-level: also the default logger
 				} else if k == 0 {
 					slog.SetLevel(slog.InfoLevel) // the package level and the default logger's own level differ
